@@ -36,7 +36,7 @@ def plan(tier, seed):
             base = dict(var, cmd=sp.name, k=k, reps='m', kinds='f', pts=2, sel=(2 if has_sel else 1))
             # ---- (a) shape preservation on rank 1-3 shapes incl. length-1 axes
             if tier == 'quick':
-                shapes = {'cheap': [[1, 2], [2, 1], [2, 2], [1, 2, 1]], 'mid': [[1, 2], [2, 1], [1, 1, 2]], 'heavy': [[1, 2], [2, 1]]}[cc]
+                shapes = {'cheap': [[1, 2], [2, 1], [2, 2], [1, 2, 1]], 'mid': [[1, 2], [2, 1], [2, 2], [1, 1, 2]], 'heavy': [[1, 2], [2, 1]]}[cc]
             else:
                 shapes = {'cheap': [[1, 3], [3, 1], [2, 2], [1, 2, 2], [2, 1, 2], [4], [1]], 'mid': [[1, 2], [2, 1], [2, 2], [1, 2, 1], [3]],
                           'heavy': [[1, 2], [2, 1], [1, 1, 2]]}[cc]
@@ -57,6 +57,8 @@ def plan(tier, seed):
                 jobs.append(dict(base, kind='perm', shape=[n], t=t))
             # ---- (c) equivariance under reshapes vector <-> grid
             rs = [([2], [1, 2]), ([2], [2, 1])]
+            if sp.name in SORTING:
+                rs.append(([4], [2, 2]))      # a grid with interior cells: layer/cell mix-ups cannot hide
             if tier == 'thorough' and cc != 'heavy':
                 rs += [([4], [2, 2]), ([2], [1, 2, 1])] if cc == 'cheap' else [([2], [1, 1, 2]), ([3], [1, 3])]
             if stat and cc != 'heavy':
@@ -94,8 +96,9 @@ def transformed_inputs(kw, fn, shape2):
 def scenario(ctx, cfg):
     sp = D.command_specs_cached()[cfg['cmd']]
     kw = D.build_kwargs(ctx, sp, cfg, fuzzy_pre=True)
-    D.assume_preconditions(ctx, sp, kw, cfg)
     kind = cfg['kind']
+    if kind != 'shape':
+        D.assume_preconditions(ctx, sp, kw, cfg)      # constant / all-missing fields are inside the shape claim
     shape = tuple(cfg['shape'])
     n = D.ncells(shape)
     if kind == 'shape':
